@@ -31,7 +31,7 @@ def demo(path):
 
 
 def do_import(pid, src):
-    for k in (1, 2, 3, 4, 5, 6, 7, 8, 9, 10, 11, 12):
+    for k in range(1, 16):
         pf = os.path.join(src, "patch%d.diff" % k)
         if not os.path.exists(pf):
             continue
